@@ -31,6 +31,11 @@
 # frames and compares the bucket every item lands in with (cur + offset + markers before it) mod ring.
 # R9 evaluates the sort helper for every fill level (counters concrete, priority comparisons followed both ways) and
 # collects the seq[] positions written on every path: definite initialisation of what the execute loop reads.
+# R10 / R11 evaluate tdma_schedule / tdma_schedule_set with the concrete interpreter (CEval) on a concrete ring object:
+# every (ring position, offset) pair of the quantifier must be accepted on an empty ring (R10); a set is refused exactly
+# when one of its items meets a full frame, markers place nothing and abort nothing (R11).  R12 evaluates the GSM-time
+# one-shot layer (sched_gsmtime.c, linuxlist.h followed through its inline functions and container_of) on all
+# registration orders of two / three events and compares what is handed to tdma_schedule_set with the single-event runs.
 
 import itertools
 import os
@@ -91,7 +96,14 @@ EXPLANATION = (
     "evaluated for each fill level 0..ARRAY_SIZE(item) with its counters and fill-level tests concrete and its priority "
     "comparisons followed both ways, has written every position seq[0 .. num_items-1] that tdma_sched_execute reads "
     "when it returns, on every path (R9: definite initialisation of the order sequence in the same call, whatever the "
-    "storage class of the array).")
+    "storage class of the array); tdma_schedule and tdma_schedule_set, evaluated by the concrete interpreter on a concrete "
+    "ring for every ring position x frame offset 0..ARRAY_SIZE(bucket)-1 with empty buckets, report success and leave the "
+    "item(s) once in bucket (cur_bucket + offset [+ markers]) mod ring -- no offset of the quantifier is refused (R10); "
+    "tdma_schedule_set, evaluated for every number of items already in the frame, refuses a set exactly when one of its items "
+    "meets a frame holding ARRAY_SIZE(item) items: a marker on an exactly full frame neither stores nor aborts, one item too "
+    "many gives a negative value, items scheduled before are kept (R11); the one-shot layer layer1/sched_gsmtime.c, evaluated "
+    "with the linuxlist.h primitives over every sequence of two and three registrations, hands every event to "
+    "tdma_schedule_set exactly once, with its own set and p3, for the frame it gets when registered alone (R12).")
 ASSUMPTIONS = [
     "type-based aliasing: stores through int*/non-scheduler lvalues do not modify scheduler fields; "
     "distinct field names of the scheduler structs do not overlap",
@@ -115,6 +127,14 @@ ASSUMPTIONS = [
     "the priority sort helper is called by tdma_sched_execute with the bucket it executes and does not change that "
     "bucket's num_items (checked), so the fill level it sees is the number of positions the execute loop reads; "
     "positions >= num_items (items scheduled on the fly into the running frame) are outside the decided clauses",
+    "a negative return value of tdma_schedule / tdma_schedule_set / sched_gsmtime reports an error, a non-negative one success "
+    "(the convention of their callers); call-backs of real items are neither NULL nor tdma_end_set",
+    "the offsetof() inside a container_of() expression names the member whose type the macro's __mptr declaration checks "
+    "(R12 gives no verdict when the container struct has several members of that type); LLIST_POISON values are never "
+    "dereferenced by correct code (a dereference is no verdict)",
+    "sched_gsmtime_execute(fn) is called once per TDMA frame with consecutive frame numbers, before the ring advances "
+    "(tail of l1_sync), so a set handed to tdma_schedule_set(offset) in frame fn starts in frame fn + offset; events are "
+    "registered at least the scheduling lead ahead and frame numbers do not wrap inside a witness history",
 ]
 
 FW = "src/target/firmware"
@@ -459,6 +479,7 @@ class Fn:
         self.rec = False
         self._atoms = {}
         self._gatoms = {}
+        self._clauses = {}
         self.refine = {}                  # (cond node id, label) -> {local key: value on that edge}
         self.solve()
         self.record()
@@ -1159,8 +1180,57 @@ class Fn:
         if v is not None:
             return set()
         t = self.rval(n)
+        if isinstance(t, tuple) and t[0] in ("cmp", "not", "and", "or"):
+            return term_atoms(t, pol)     # a local that holds the outcome of a comparison (`full = n >= size; ... if (full)`)
         lo, hi = sorted([C0, t], key=repr)
         return {("==", lo, hi, not pol)}
+
+    def disjuncts(self, n, pol):
+        """Alternatives (each a set of atoms, a conjunction) of condition n read as a disjunction under polarity pol;
+        None when n is no disjunction, [] when some alternative is opaque (the clause says nothing then)."""
+        n = strip(n)
+        if kind(n) == "UnaryOperator" and n.get("opcode") == "!":
+            return self.disjuncts(kids(n)[0], not pol)
+        if kind(n) == "BinaryOperator" and n.get("opcode") in ("&&", "||") and (n.get("opcode") == "&&") != pol:
+            out = []
+            for x in kids(n)[:2]:
+                sub = self.disjuncts(x, pol)
+                if sub is None:
+                    at = self.batoms(x, pol)
+                    sub = [frozenset(at)] if at else []
+                if not sub:
+                    return []
+                out.extend(sub)
+            return out
+        return None
+
+    def bclauses(self, n, pol):
+        """Disjunctions that hold when condition n is true (pol) / false: `!(a && b && c)` gives the clause
+        [!a, !b, !c] (list of alternatives)."""
+        n = strip(n)
+        ks = kids(n)
+        if kind(n) == "UnaryOperator" and n.get("opcode") == "!":
+            return self.bclauses(ks[0], not pol)
+        if kind(n) == "BinaryOperator" and n.get("opcode") in ("&&", "||"):
+            if (n.get("opcode") == "&&") == pol:
+                return self.bclauses(ks[0], pol) + self.bclauses(ks[1], pol)
+            d = self.disjuncts(n, pol)
+            return [d] if d else []
+        return []
+
+    def clauses(self, c, label):
+        key = (c.id, label)
+        if key not in self._clauses:
+            out = []
+            if c.kind == "cond" and getattr(c, "cond", None) is not None and c.id in self.inn and label in (True, False):
+                save = (self.st, self.cur, self.rec, self.k)
+                self.st, self.cur, self.rec, self.k = dict(self.inn[c.id]), c, False, 0
+                try:
+                    out = self.bclauses(c.cond, bool(label))
+                finally:
+                    self.st, self.cur, self.rec, self.k = save
+            self._clauses[key] = out
+        return self._clauses[key]
 
     def atoms(self, c, label):
         """Atoms that hold when cond node c is left by `label`."""
@@ -1195,8 +1265,17 @@ class Fn:
         """Least constant ub with term <= ub on every path to node, and the
         guard edges that give a bound on the term."""
         best, edges = None, []
+        known = None
         for (c, l) in self.guard_edges(node):
-            for a in self.atoms(c, l):
+            ats = set(self.atoms(c, l))
+            for cl in self.clauses(c, l):
+                # unit resolution: `!(is_item && full)` + is_item (the marker tests left by their other edge) => !full
+                if known is None:
+                    known = self.guard_atoms(node)
+                alive = [d for d in cl if not any((x[0], x[1], x[2], not x[3]) in known for x in d)]
+                if len(alive) == 1:
+                    ats |= alive[0]
+            for a in ats:
                 ub = None
                 if a[0] == "<" and a[1] == term and a[2][0] == "c" and a[3]:
                     ub = a[2][1] - 1
@@ -5153,6 +5232,9 @@ def r12_gsmtime_feeder(a):
         except FOLD_ERRORS as e:
             raise NoVerdict("the evaluator met a construct it does not model (%s)" % type(e).__name__)
 
+    def accepted(rc):
+        return isinstance(rc, int) and not isinstance(rc, bool) and rc >= 0
+
     def describe(events):
         return ", ".join("fn %d%s" % (Fk, "" if t is None else " (registered in frame %d)" % t) for (t, Fk) in events)
 
@@ -5164,7 +5246,7 @@ def r12_gsmtime_feeder(a):
             rcs, seen = run([(0, Fk)])
             runs += 1
             mine = [c for c in seen if c[2] == 0]
-            if rcs.get(0) != 0 or len(seen) != 1 or len(mine) != 1 or mine[0][3] != 500 or not isinstance(mine[0][1], int):
+            if not accepted(rcs.get(0)) or len(seen) != 1 or len(mine) != 1 or mine[0][3] != 500 or not isinstance(mine[0][1], int):
                 if alone is None:
                     alone = "an event registered alone for fn %d: sched_gsmtime() returns %s, tdma_schedule_set() is called %d " \
                             "time(s)%s" % (Fk, rcs.get(0), len(seen), "" if len(mine) == len(seen) and all(
@@ -5188,8 +5270,8 @@ def r12_gsmtime_feeder(a):
             for k, (t, Fk) in enumerate(events):
                 mine = [c for c in seen if c[2] == k]
                 text = None
-                if rcs.get(k) != 0:
-                    text = "sched_gsmtime() returns %s for it" % (rcs.get(k),)
+                if not accepted(rcs.get(k)):
+                    text = "sched_gsmtime() returns %s for it although event slots are free" % (rcs.get(k),)
                 elif len(mine) != 1:
                     text = "it is %s" % ("never handed to tdma_schedule_set()" if not mine else
                                          "handed to tdma_schedule_set() %d times" % len(mine))
